@@ -271,7 +271,12 @@ impl Core {
             }) {
                 Ok((stream, addr)) => {
                     #[cfg(trusttunnel_verif)]
-                    crate::verif_emit!("Accepted", "\"id\":\"{}\",\"peer\":\"{}\"", client_id, addr.ip());
+                    crate::verif_emit!(
+                        "Accepted",
+                        "\"id\":\"{}\",\"peer\":\"{}\"",
+                        client_id,
+                        addr.ip()
+                    );
                     if has_tcp_based_codec {
                         log_id!(debug, client_id, "New TCP client: {}", addr);
                         (stream, addr)
@@ -653,7 +658,11 @@ impl Core {
                     log_id,
                     ip,
                     crate::verif::rules::json_random(client_random),
-                    if rule_result == rules::RuleEvaluation::Allow { "allow" } else { "deny" }
+                    if rule_result == rules::RuleEvaluation::Allow {
+                        "allow"
+                    } else {
+                        "deny"
+                    }
                 );
                 match rule_result {
                     rules::RuleEvaluation::Deny => {
